@@ -29,6 +29,7 @@ THEOREMS = [
     'Pyiga.Props.C02.ders1_eq_cox_partial', 'Pyiga.Props.C02.ders_high_zero',
     'Pyiga.Props.C02.ders_row1_eq_cox', 'Pyiga.Props.C02.ders_rows_high_zero',
     'Pyiga.Props.C02.active_values_nonneg', 'Pyiga.Props.C02.active_values_sum_one',
+    'Pyiga.Props.C02.single_ev_eq_cox', 'Pyiga.Props.C02.single_ev_boundary',
 ]
 MODULES = ['Pyiga.Model.Knots', 'Pyiga.Model.BSpline', 'Pyiga.Proofs.Knots', 'Pyiga.Proofs.BSpline', 'Pyiga.Props.C02']
 
